@@ -36,7 +36,9 @@ func (x *Exec) doCall(st *State, in *ssa.Call) []Outcome {
 // assumed not to write caller-visible memory (recorded).
 func (x *Exec) dynamicCall(st *State, in *ssa.Call, what string) []Outcome {
 	x.assumeNote("dynamic call (" + what + ") in " + st.top().fn.Name() + ": result unconstrained, assumed not to modify memory visible to the caller")
-	return []Outcome{{st, x.freshResults(st, in.Common().Signature().Results(), "dyn")}}
+	rs := x.freshResults(st, in.Common().Signature().Results(), "dyn")
+	x.noteErrs(st, in.Common().Signature(), rs)
+	return []Outcome{{st, rs}}
 }
 
 func (x *Exec) freshResults(st *State, res *types.Tuple, prefix string) []Value {
@@ -53,7 +55,21 @@ func (x *Exec) staticCall(st *State, in *ssa.Call, fv FuncV, args []Value) []Out
 	c := x.v.cs.Contracts[key]
 	if c != nil && !c.Inline {
 		x.v.noteUse(x.key, key)
-		return x.contractCall(st, in, fn, c, args, key)
+		var backs []func(st *State)
+		args = append([]Value(nil), args...)
+		for i, a := range args {
+			if tv, back, ok := x.materialise(st, a); ok {
+				args[i] = tv
+				backs = append(backs, back)
+			}
+		}
+		outs := x.contractCall(st, in, fn, c, args, key)
+		for _, o := range outs {
+			for _, b := range backs {
+				b(o.st)
+			}
+		}
+		return outs
 	}
 	if fn.Blocks == nil {
 		// external without body and without a spec
@@ -94,8 +110,18 @@ func (x *Exec) inlineCall(st *State, fn *ssa.Function, bindings []Value, args []
 }
 
 type modObj struct {
-	key string
-	ref *Term
+	key   string
+	ref   *Term
+	bound []*Term // non-nil: a family of objects, one per binding satisfying guard
+	guard *Term
+}
+
+// excludes: reference r is not (one of) the object(s) named.
+func (m modObj) excludes(r *Term) *Term {
+	if m.bound == nil {
+		return Not(Eq(r, m.ref))
+	}
+	return MkQuant("forall", m.bound, Implies(m.guard, Not(Eq(r, m.ref))))
 }
 
 // havocHeaps replaces the heaps named in ws by fresh ones.  With frame=true
@@ -121,7 +147,7 @@ func (x *Exec) havocHeaps(st *State, ws *writeSet, mods []modObj, frame bool) {
 		cond := []*Term{Le(IntLit(0), r), Le(r, before)}
 		for _, m := range mods {
 			if m.key == k.key {
-				cond = append(cond, Not(Eq(r, m.ref)))
+				cond = append(cond, m.excludes(r))
 			}
 		}
 		body := Implies(And(cond...), Eq(Select(nh, r), Select(old, r)))
@@ -134,19 +160,43 @@ func (x *Exec) modObjects(env *Env, c *Contract) []modObj {
 	var out []modObj
 	for _, cl := range c.Modifies {
 		for _, e := range cl.Exprs {
-			v := x.compile(env, e)
+			env.clause = cl
+			var bound []*Term
+			var guard *Term
+			cenv := env
+			if q, ok := e.(*SQuant); ok && q.All {
+				// modifies forall i int :: guard ==> object(i)
+				imp, ok := q.Body.(*SBinary)
+				if !ok || imp.Op != "==>" {
+					env.fail("quantified modifies must have the form  forall i T :: guard ==> object")
+				}
+				cenv = env.child()
+				for _, v := range q.Vars {
+					ty := cenv.resolveType(v.Type)
+					x.counter++
+					bt := Atom(fmt.Sprintf("%s!m%d", v.Name, x.counter), x.ti.SortOf(ty))
+					bound = append(bound, bt)
+					cenv.bound[v.Name] = TV{bt, ty}
+				}
+				guard = x.compileTV(cenv, imp.X).T
+				e = imp.Y
+			}
+			v := x.compile(cenv, e)
 			tv, ok := v.(TV)
 			if !ok {
 				unsup("modifies clause %q does not denote a heap object", cl.Text)
 			}
+			add := func(key string, ref *Term) { out = append(out, modObj{key: key, ref: ref, bound: bound, guard: guard}) }
 			switch u := tv.Ty.Underlying().(type) {
 			case *types.Slice:
-				out = append(out, modObj{x.ti.HeapKey(u.Elem()), Sel("s-ref", tv.T)})
+				add(x.ti.HeapKey(u.Elem()), Sel("s-ref", tv.T))
 			case *types.Pointer:
-				out = append(out, modObj{x.ti.HeapKey(elemOfPointee(u.Elem())), Sel("p-ref", tv.T)})
+				add(x.ti.HeapKey(elemOfPointee(u.Elem())), Sel("p-ref", tv.T))
 			case *types.Map:
 				dk, vk, lk := x.ti.MapKeys(u)
-				out = append(out, modObj{dk, tv.T}, modObj{vk, tv.T}, modObj{lk, tv.T})
+				add(dk, tv.T)
+				add(vk, tv.T)
+				add(lk, tv.T)
 			default:
 				unsup("modifies clause %q has type %s", cl.Text, tv.Ty)
 			}
@@ -184,7 +234,12 @@ func (x *Exec) contractCall(st *State, in *ssa.Call, fn *ssa.Function, c *Contra
 			}
 			ts = append(ts, tv.T)
 		}
-		return []Outcome{{st, []Value{x.functionalApp(key, c, fn, ts)}}}
+		r := x.functionalApp(key, c, fn, ts)
+		if tup, ok := r.(Tuple); ok {
+			x.noteErrs(st, fn.Signature, []Value(tup))
+			return []Outcome{{st, []Value(tup)}}
+		}
+		return []Outcome{{st, []Value{r}}}
 	}
 	vars := x.paramEnvVars(fn, c, args)
 	pre := &Snapshot{heap: copyHeap(st.heap), vars: vars, alloc: st.alloc}
@@ -218,7 +273,72 @@ func (x *Exec) contractCall(st *State, in *ssa.Call, fn *ssa.Function, c *Contra
 	if c.Trusted || fn.Blocks == nil {
 		x.assumeNote("trusted contract: " + key)
 	}
+	x.noteErrs(st, sig, results)
 	return []Outcome{{st, results}}
+}
+
+// noteErrs maintains the ghost flag errseen(): some callee on this path
+// returned a non-nil error.
+func (x *Exec) noteErrs(st *State, sig *types.Signature, results []Value) {
+	for i, r := range results {
+		if i >= sig.Results().Len() {
+			break
+		}
+		if !isErrorType(sig.Results().At(i).Type()) {
+			continue
+		}
+		if tv, ok := r.(TV); ok && tv.T.Sort == SIface {
+			ne := Not(Eq(tv.T, Atom("iface-nil", SIface)))
+			if st.errSeen == nil {
+				st.errSeen = ne
+			} else {
+				st.errSeen = Or(st.errSeen, ne)
+			}
+		}
+	}
+}
+
+func isErrorType(t types.Type) bool {
+	n, ok := types.Unalias(t).(*types.Named)
+	return ok && n.Obj().Pkg() == nil && n.Obj().Name() == "error"
+}
+
+// materialise: a pointer into the middle of an object (a field of a heap
+// struct, or a local) passed to a function with a contract is replaced, for the
+// duration of the call, by a pointer to a fresh object holding a copy; the
+// result is copied back afterwards.  Sound as long as the callee neither
+// retains the pointer nor reaches the enclosing object by another route.
+func (x *Exec) materialise(st *State, a Value) (TV, func(st *State), bool) {
+	var ty types.Type
+	switch p := a.(type) {
+	case HeapPtr:
+		if len(p.Path) == 0 {
+			return TV{}, nil, false
+		}
+		ty = p.Ty
+	case CellPtr:
+		ty = p.Ty
+	default:
+		return TV{}, nil, false
+	}
+	if _, isArr := ty.Underlying().(*types.Array); isArr {
+		unsup("pointer to an array inside an object passed to a contract function")
+	}
+	cur, ok := x.loadQuiet(st, a).(TV)
+	if !ok {
+		unsup("pointer to a non-term value passed to a contract function")
+	}
+	ref := x.newRef(st)
+	x.heapWrite(st, ty, ref, IntLit(0), cur.T)
+	ptr := TV{MkPtr(ref, IntLit(0)), types.NewPointer(ty)}
+	x.assumeNote("interior or local pointers passed to contract functions are modelled by copy-in/copy-out")
+	back := func(st *State) {
+		v := x.heapRead(st, ty, ref, IntLit(0))
+		n := len(x.obls)
+		x.store(st, a, TV{v, ty}, token.NoPos)
+		x.obls = x.obls[:n]
+	}
+	return ptr, back, true
 }
 
 func (x *Exec) bindResults(env *Env, sig *types.Signature, c *Contract, results []Value) {
@@ -422,6 +542,11 @@ func (x *Exec) appendCall(st *State, in *ssa.Call, args []Value) []Outcome {
 					Implies(inNew, Eq(Select(na, j), get(st, Sub(j, ln)))))}, Pats: []*Term{Select(na, j)}})
 			st.heap[key] = Store(h, ref, na)
 		}
+		// the rest of the new backing array is zero
+		x.counter++
+		jz := Atom(fmt.Sprintf("j!z%d", x.counter), SInt)
+		st.assume(&Term{Op: "forall", Sort: SBool, Bound: []*Term{jz}, Args: []*Term{
+			Implies(Le(newLen, jz), Eq(Select(Select(st.heap[key], ref), jz), x.ti.ZeroTerm(elem)))}, Pats: []*Term{Select(Select(st.heap[key], ref), jz)}})
 		outs = append(outs, Outcome{st, []Value{TV{MkSlice(ref, IntLit(0), newLen, ncap), rt}}})
 	}
 	return outs
